@@ -449,7 +449,10 @@ def env_invariance(chk, group):
     bundle = os.path.join(bundle_dir, "forged_roots.pem")
     try:
         from harness import regsim
+        import time as _time
+        _now = int(_time.time())
         pems = b"".join(regsim.PKI(t, root_cn=cn).root_pem() for t, cn in (("A", "Forged Root"), ("Z", "Unrelated Root")))
+        pems += regsim.PKI("RT", root_nb=_now - 1000 * regsim.DAY, root_na=_now + 1000 * regsim.DAY).root_pem()      # a root valid at the real clock
         with open(bundle + f".{os.getpid()}", "wb") as f:
             f.write(pems)
         os.replace(bundle + f".{os.getpid()}", bundle)
